@@ -15,6 +15,8 @@
 //     despawn caused by the run - or by collecting the run's garbage - is turned into reactions inside the same tree);
 //  F. (program-point obligation, C13) after the run and its garbage collection: if the target still exists with its storage component,
 //     that component holds exactly THE callback that just ran (as the run left it) - not a fresh one, not none;
+//  G. (ghost-state obligation on EVERY exit, C13) the runner never returns while it holds a callback it took out of the target's
+//     storage: between the take and the reinsertion block there is no exit (an exit there would drop the system's persistent state);
 //  C. when the root call (counter == 0 on entry) returns after running its system, the buffer is empty and the counter is
 //     0 again (C11-function level).
 // Termination of the discard loop is not verified (cleanup_on_abort is an uninterpreted effect).
@@ -186,6 +188,10 @@ pub open spec fn kept_of(s: Seq<BufferedSyscommand>, command: SystemCommand) -> 
 //@fn src/react/syscommand_runner.rs - syscommand_runner
 //@| ensures runner_post(*old(world), command, setup, cleanup, *final(world)),
 //@ghost | broadcast use axiom_queue_wf, axiom_counter_small;
+//@ghost | let ghost mut verif_holding: bool = false;
+//@before **world.resource_mut::<SyscommandCounter>() += 1 | proof { verif_holding = true; }
+//@before #2 schedule_removal_and_despawn_reactors(world) | proof { verif_holding = false; }
+//@atreturn | assert(!verif_holding);
 //@liftretain buffered_syscommands .retain | replay_buffered | VecDeque<BufferedSyscommand> | idx: usize
 //@lift| ensures buffered.command == command ==> !keep,
 //@lift|         buffered.command != command ==> keep,
